@@ -60,6 +60,7 @@ type FuncSpec struct {
 	RetElem   string              // result is nil or &param[k]
 	Opaque    []string            // spec functions kept uninterpreted in this function's obligations
 	OpaqueExc map[string][]string // spec function -> labels of the obligations that still see its definition
+	Decreases string              // lemmas: measure for recursive uses (induction)
 	File      string
 	Line      int
 	Lets      []LetSpec
@@ -77,6 +78,7 @@ type FuncSpec struct {
 // UseSpec invokes a lemma at a site: use name(args) at site.
 type UseSpec struct {
 	Call string
+	When string // lemmas: guard of the instance ("use L(args) when cond")
 	At   string
 	File string
 	Line int
@@ -436,6 +438,9 @@ func (cs *Contracts) ParseFile(path string) error {
 			case "decreases":
 				if curL != nil {
 					curL.Decreases = rc.rest
+				} else {
+					// measure of an inductive lemma
+					curF.Decreases = rc.rest
 				}
 			case "ghost":
 				at := "exit"
@@ -452,7 +457,12 @@ func (cs *Contracts) ParseFile(path string) error {
 					at = strings.TrimSpace(st[k+4:])
 					st = strings.TrimSpace(st[:k])
 				}
-				curF.Uses = append(curF.Uses, UseSpec{Call: st, At: at, File: path, Line: rc.line})
+				when := ""
+				if k := strings.Index(st, " when "); k >= 0 {
+					when = strings.TrimSpace(st[k+6:])
+					st = strings.TrimSpace(st[:k])
+				}
+				curF.Uses = append(curF.Uses, UseSpec{Call: st, When: when, At: at, File: path, Line: rc.line})
 			case "assert", "hint":
 				at := "exit"
 				st := rc.rest
